@@ -1,6 +1,7 @@
 import XdsVerif.Proofs.Seq
 import XdsVerif.Proofs.Stream
 import XdsVerif.Properties.C01
+import XdsVerif.Proofs.Sys
 /-!
 # C04 — stream failures: resubscribe, per-stream nonces, cache kept, clean stop
 
@@ -22,6 +23,15 @@ theorem facts_send_aborts : Generated.sendAborts = true := by decide
 theorem nonce_per_stream (cfg : Cfg) (ops : List Op) (s : St) (h : run cfg init ops = some s) :
     ∀ kq ∈ s.wire, kq.2.nonce = "" ∨ (kq.1, kq.2.nonce) ∈ s.issued :=
   (sinv_run cfg ops init s sinv_init h).j3
+
+/-- **per-stream nonces with concurrent lookups** (`Model/Sys.lean`): lookups racing a stream failure (their `Watch`
+enqueues a request at any point of the reconnect) never put a foreign nonce on a stream, in any interleaving whose
+response handlers run their sections back to back -/
+theorem nonce_per_stream_concurrent (cfg : Cfg) (V : Conc.Variant) (T : RType) (tn : Nat → Name)
+    (ls : List Sys.Lbl) (s : Sys.St) (e : Sys.Emit) (ha : Sys.atomic ls = true)
+    (h : Sys.run cfg V T tn Sys.init ls = some (s, e)) :
+    ∀ kq ∈ s.seq.wire, kq.2.nonce = "" ∨ (kq.1, kq.2.nonce) ∈ s.seq.issued :=
+  nonce_per_stream cfg e.seq s.seq (Sys.run_seq cfg V T tn ls Sys.init s e rfl ha h).1
 
 /-- **resubscription**: when the sender adopts stream `k` it sends exactly one request per watched type, with the
 full name set, the last accepted version, no error, and a nonce that is empty or was issued on `k` -/
